@@ -590,15 +590,16 @@ Lemma eval_upstream ipsets a bm i m :
 Proof. intros H. unfold eval_mset. rewrite H. reflexivity. Qed.
 
 Lemma add_ip_emitted ups x bm b neg ps upname oid :
+  N.of_nat (List.length (b_ipsets b)) < 65536 ->
   upstream_to_id Response ups upname = Ok oid ->
   exists b' seg, add_ip ups b neg ps upname = Ok b' /\
     emitted Response x bm b b' seg neg oid (existsb (fun ip => existsb (fun p => px_covers p ip) ps) (x_ips x)).
 Proof.
-  intros Hoid. unfold add_ip. rewrite Hoid. eexists. eexists. split; [reflexivity|].
+  intros Hlen Hoid. unfold add_ip. rewrite Hoid. eexists. eexists. split; [reflexivity|].
   apply (emitted_single Response x bm b {| b_rules := b_rules b; b_domsets := b_domsets b; b_ipsets := b_ipsets b ++ [ps] |});
     [reflexivity| |reflexivity|reflexivity|].
   - split; cbn; [eexists; reflexivity|exists []; now rewrite app_nil_r].
-  - intros F HF _. rewrite eval_ipset by reflexivity. cbn [m_value a_ips]. rewrite Nat2N.id.
+  - intros F HF _. rewrite eval_ipset by reflexivity. cbn [m_value a_ips]. rewrite N.mod_small by lia. rewrite Nat2N.id.
     destruct HF as [[t Ht] _]. cbn [append_rule b_ipsets] in Ht.
     rewrite Ht, <- app_assoc, nth_error_app2 by lia. rewrite Nat.sub_diag. reflexivity.
 Qed.
@@ -633,6 +634,67 @@ Proof.
     apply emitted_single; [reflexivity|apply ext_refl|reflexivity|reflexivity|intros F _ _; apply Hev].
 Qed.
 
+(* --- how many address sets a builder run adds (read off the model, independent of what the sets mean) --- *)
+Definition ipc (sd : side) (c : cond) : nat := match sd with Request => 0%nat | Response => ip_count_cond c end.
+Definition ipc_conds (sd : side) (cs : list cond) : nat := fold_right (fun c n => (ipc sd c + n)%nat) 0%nat cs.
+Definition ipc_rules (sd : side) (rs : list rule) : nat := fold_right (fun r n => (ipc_conds sd (r_conds r) + n)%nat) 0%nat rs.
+
+Lemma ipc_conds_cons sd c cs : ipc_conds sd (c :: cs) = (ipc sd c + ipc_conds sd cs)%nat.
+Proof. reflexivity. Qed.
+Lemma ipc_rules_cons sd r rs : ipc_rules sd (r :: rs) = (ipc_conds sd (r_conds r) + ipc_rules sd rs)%nat.
+Proof. reflexivity. Qed.
+
+Lemma add_qtype_ipsets sd ups : forall vals b neg upname b',
+  add_qtype sd ups b neg vals upname = Ok b' -> b_ipsets b' = b_ipsets b.
+Proof.
+  induction vals as [|v vals IH]; intros b neg upname b' H; cbn [add_qtype] in H; [now inversion H|].
+  destruct (upstream_to_id sd ups _); [|discriminate]. apply IH in H. exact H.
+Qed.
+Lemma add_upstream_ipsets ups : forall vals b neg upname b',
+  add_upstream ups b neg vals upname = Ok b' -> b_ipsets b' = b_ipsets b.
+Proof.
+  induction vals as [|v vals IH]; intros b neg upname b' H; cbn [add_upstream] in H; [now inversion H|].
+  destruct (upstream_to_id Response ups (match vals with [] => upname | _ => _ end)); [|discriminate].
+  destruct (upstream_to_id Response ups v); [|discriminate]. apply IH in H. exact H.
+Qed.
+Lemma apply_qname_groups_ipsets sd ups : forall gs b neg lf target b',
+  apply_qname_groups sd ups b neg gs lf target = Ok b' -> b_ipsets b' = b_ipsets b.
+Proof.
+  induction gs as [|[k vals] gs IH]; intros b neg lf target b' H; cbn [apply_qname_groups] in H; [now inversion H|].
+  destruct (add_qname sd ups b neg k vals _) as [b1|] eqn:E; [|discriminate]. apply IH in H. rewrite H.
+  unfold add_qname in E. destruct (upstream_to_id sd ups _); [|discriminate]. now inversion E.
+Qed.
+Lemma apply_func_ipsets sd ups b c lf target b' :
+  apply_func sd ups b c lf target = Ok b' -> List.length (b_ipsets b') = (List.length (b_ipsets b) + ipc sd c)%nat.
+Proof.
+  unfold apply_func, ipc, ip_count_cond. destruct (c_body c) as [ps|ts|ps|ns]; intros H.
+  - apply apply_qname_groups_ipsets in H. rewrite H. destruct sd; lia.
+  - destruct ts; [inversion H; destruct sd; lia|]. apply add_qtype_ipsets in H. rewrite H. destruct sd; lia.
+  - destruct sd; [discriminate|]. destruct ps; [inversion H; lia|].
+    unfold add_ip in H. destruct (upstream_to_id Response ups _); [|discriminate]. inversion H. cbn [b_ipsets]. rewrite app_length. cbn. lia.
+  - destruct sd; [discriminate|]. destruct ns; [inversion H; lia|]. apply add_upstream_ipsets in H. rewrite H. lia.
+Qed.
+Lemma apply_funcs_ipsets sd ups : forall cs b target b',
+  apply_funcs sd ups b cs target = Ok b' -> List.length (b_ipsets b') = (List.length (b_ipsets b) + ipc_conds sd cs)%nat.
+Proof.
+  induction cs as [|c cs IH]; intros b target b' H; cbn [apply_funcs] in H; [inversion H; cbn; lia|].
+  destruct (apply_func sd ups b c _ target) as [b1|] eqn:E; [|discriminate].
+  apply apply_func_ipsets in E. apply IH in H. rewrite ipc_conds_cons. lia.
+Qed.
+
+Lemma ipc_conds_request_zero cs : ipc_conds Request cs = 0%nat.
+Proof. induction cs as [|c cs IH]; [reflexivity|]. rewrite ipc_conds_cons, IH. reflexivity. Qed.
+Lemma ipc_request_zero rs : ipc_rules Request rs = 0%nat.
+Proof. induction rs as [|r rs IH]; [reflexivity|]. now rewrite ipc_rules_cons, IH, ipc_conds_request_zero. Qed.
+Lemma ipc_conds_response_eq cs : ipc_conds Response cs = ip_count_conds cs.
+Proof.
+  induction cs as [|c cs IH]; [reflexivity|]. rewrite ipc_conds_cons, IH. reflexivity.
+Qed.
+Lemma ipc_response_eq rs : ipc_rules Response rs = ip_count_rules rs.
+Proof.
+  induction rs as [|r rs IH]; [reflexivity|]. rewrite ipc_rules_cons, IH, ipc_conds_response_eq. reflexivity.
+Qed.
+
 (* --- one function call (all its key groups) --- *)
 Lemma apply_qname_groups_emit sd ups x bm : forall gs b neg (last_func : bool) target oid,
   gs <> [] ->
@@ -654,12 +716,13 @@ Proof.
 Qed.
 
 Lemma cond_emit sd ups x bm c b (last_func : bool) target oid :
+  N.of_nat (List.length (b_ipsets b) + ipc sd c) <= 65536 ->
   wf_upstreams ups = true -> cond_ok (is_resp_of sd) ups c = true ->
   upstream_to_id sd ups (if last_func then target else "<AND>"%string) = Ok oid ->
   exists b' seg, apply_func sd ups b c last_func target = Ok b' /\
     emitted sd x bm b b' seg (c_neg c) oid (body_holds ups (c_body c) x).
 Proof.
-  intros Hw Hc Hoid. unfold cond_ok in Hc. unfold apply_func. destruct (c_body c) as [ps|ts|ps|ns]; cbn [body_holds].
+  intros Hcap Hw Hc Hoid. unfold cond_ok in Hc. unfold ipc, ip_count_cond in Hcap. unfold apply_func. destruct (c_body c) as [ps|ts|ps|ns]; cbn [body_holds].
   - assert (Hne : ps <> []) by (destruct ps; [discriminate|congruence]).
     destruct (apply_qname_groups_emit sd ups x bm (group_by_key ps) b (c_neg c) last_func target oid
                 (group_by_key_nonempty ps Hne) Hoid) as [b' [seg [Hrun Hem]]].
@@ -675,7 +738,8 @@ Proof.
   - apply andb_true_iff in Hc. destruct Hc as [Hc _]. apply andb_true_iff in Hc. destruct Hc as [Hr Hne].
     destruct sd; [discriminate|].
     assert (Hne' : ps <> []) by (destruct ps; [discriminate|congruence]).
-    destruct (add_ip_emitted ups x bm b (c_neg c) ps _ oid Hoid) as [b' [seg [Hrun Hem]]].
+    assert (Hlen : N.of_nat (List.length (b_ipsets b)) < 65536) by (destruct ps; [congruence|lia]).
+    destruct (add_ip_emitted ups x bm b (c_neg c) ps _ oid Hlen Hoid) as [b' [seg [Hrun Hem]]].
     exists b', seg. split; [|exact Hem]. destruct ps; [congruence|exact Hrun].
   - apply andb_true_iff in Hc. destruct Hc as [Hc Hall]. apply andb_true_iff in Hc. destruct Hc as [Hr Hne].
     destruct sd; [discriminate|].
@@ -706,6 +770,7 @@ Lemma lower_conds_cons t (c : RuleScan.cond atom) acs : acs <> [] ->
 Proof. destruct acs; [congruence|reflexivity]. Qed.
 
 Lemma apply_funcs_emit sd ups x bm : wf_upstreams ups = true -> forall cs b target oid,
+  N.of_nat (List.length (b_ipsets b) + ipc_conds sd cs) <= 65536 ->
   cs <> [] -> Forall (fun c => cond_ok (is_resp_of sd) ups c = true) cs ->
   upstream_to_id sd ups target = Ok oid -> oid <= 253 ->
   exists b' seg acs, apply_funcs sd ups b cs target = Ok b' /\ b_rules b' = b_rules b ++ seg /\ ext b b' /\
@@ -716,9 +781,10 @@ Lemma apply_funcs_emit sd ups x bm : wf_upstreams ups = true -> forall cs b targ
       Forall (fine sd x bm F) (tag (N.of_nat (List.length (b_rules b))) seg) /\
       forallb (RuleScan.cond_holds atom (semx sd x bm F)) acs = forallb (fun c => cond_holds ups c x) cs.
 Proof.
-  intros Hw. induction cs as [|c cs IH]; intros b target oid Hne Hok Hoid Hle; [congruence|].
-  inversion Hok as [|? ? Hc Hok']; subst. cbn [apply_funcs]. destruct cs as [|c2 cs'].
-  - destruct (cond_emit sd ups x bm c b true target oid Hw Hc Hoid) as [b' [seg [Hrun [Hr [He [Hch Hs]]]]]].
+  intros Hw. induction cs as [|c cs IH]; intros b target oid Hcap Hne Hok Hoid Hle; [congruence|].
+  inversion Hok as [|? ? Hc Hok']; subst. cbn [apply_funcs]. rewrite ipc_conds_cons in Hcap.
+  destruct cs as [|c2 cs'].
+  - destruct (cond_emit sd ups x bm c b true target oid ltac:(lia) Hw Hc Hoid) as [b' [seg [Hrun [Hr [He [Hch Hs]]]]]].
     rewrite Hrun. exists b', seg, [RuleScan.C (c_neg c) (tag (N.of_nat (List.length (b_rules b))) seg)].
     split; [reflexivity|]. split; [exact Hr|]. split; [exact He|].
     split. { rewrite (chain_lower sd _ _ _ Hch), (tgt_out sd oid Hle). reflexivity. }
@@ -728,10 +794,10 @@ Proof.
     intros F HF Hd. destruct (Hs F HF Hd) as [Hf Hx]. split; [exact Hf|].
     cbn [forallb]. unfold RuleScan.cond_holds. cbn [RuleScan.cneg RuleScan.catoms]. rewrite Hx.
     rewrite !andb_true_r. reflexivity.
-  - destruct (cond_emit sd ups x bm c b false target (s_and sd) Hw Hc (and_id sd ups)) as [b1 [seg1 [Hrun1 [Hr1 [He1 [Hch1 Hs1]]]]]].
-    rewrite Hrun1.
+  - destruct (cond_emit sd ups x bm c b false target (s_and sd) ltac:(lia) Hw Hc (and_id sd ups)) as [b1 [seg1 [Hrun1 [Hr1 [He1 [Hch1 Hs1]]]]]].
+    rewrite Hrun1. pose proof (apply_func_ipsets _ _ _ _ _ _ _ Hrun1) as Hlen1.
     destruct (IH b1 target oid) as [b' [seg2 [acs2 [Hrun2 [Hr2 [He2 [Hl2 [Hne2 [Hwf2 [Ho2 Hs2]]]]]]]]]];
-      [discriminate|exact Hok'|exact Hoid|exact Hle|].
+      [lia|discriminate|exact Hok'|exact Hoid|exact Hle|].
     exists b', (seg1 ++ seg2), (RuleScan.C (c_neg c) (tag (N.of_nat (List.length (b_rules b))) seg1) :: acs2).
     split; [exact Hrun2|]. split; [now rewrite Hr2, Hr1, app_assoc|]. split; [now apply (ext_trans b b1 b')|].
     rewrite Hr1, app_length, Nat2N.inj_add in Hl2, Hs2.
@@ -758,6 +824,7 @@ Fixpoint drk (sd : side) (ups : list string) (x : ctx) (rs : list rule) (k : opt
   end.
 
 Lemma apply_rules_emit sd ups x bm : wf_upstreams ups = true -> forall rs b,
+  N.of_nat (List.length (b_ipsets b) + ipc_rules sd rs) <= 65536 ->
   Forall (fun r => rule_ok (is_resp_of sd) ups r = true) rs ->
   exists b' seg ars, apply_rules sd ups b rs = Ok b' /\ b_rules b' = b_rules b ++ seg /\ ext b b' /\
     abs_arr sd (N.of_nat (List.length (b_rules b))) seg = RuleScan.lower atom R ars /\
@@ -767,7 +834,7 @@ Lemma apply_rules_emit sd ups x bm : wf_upstreams ups = true -> forall rs b,
       forall more, RuleScan.decide atom R (semx sd x bm F) (ars ++ more) false
                    = drk sd ups x rs (RuleScan.decide atom R (semx sd x bm F) more false).
 Proof.
-  intros Hw. induction rs as [|r rs IH]; intros b Hok.
+  intros Hw. induction rs as [|r rs IH]; intros b Hcap Hok.
   - exists b, [], []. cbn [apply_rules]. rewrite app_nil_r.
     repeat split; auto using ext_refl; try apply ext_refl; constructor.
   - inversion Hok as [|? ? Hr Hok']; subst.
@@ -775,9 +842,11 @@ Proof.
     assert (Hne' : r_conds r <> []) by (destruct (r_conds r); [discriminate|congruence]).
     assert (Hconds' : Forall (fun c => cond_ok (is_resp_of sd) ups c = true) (r_conds r)) by (apply Forall_forall; now rewrite forallb_forall in Hconds).
     destruct (target_resolved sd ups (r_target r) Hw Hout) as [oid [Hoid Hle]].
-    destruct (apply_funcs_emit sd ups x bm Hw (r_conds r) b (r_target r) oid Hne' Hconds' Hoid Hle)
+    rewrite ipc_rules_cons in Hcap.
+    destruct (apply_funcs_emit sd ups x bm Hw (r_conds r) b (r_target r) oid ltac:(lia) Hne' Hconds' Hoid Hle)
       as [b1 [seg1 [acs [Hrun1 [Hr1 [He1 [Hl1 [Hne1 [Hwf1 [Ho1 Hs1]]]]]]]]]].
-    destruct (IH b1 Hok') as [b' [seg2 [ars2 [Hrun2 [Hr2 [He2 [Hl2 [Hwf2 [Ho2 Hs2]]]]]]]]].
+    pose proof (apply_funcs_ipsets _ _ _ _ _ _ Hrun1) as Hlen1.
+    destruct (IH b1 ltac:(lia) Hok') as [b' [seg2 [ars2 [Hrun2 [Hr2 [He2 [Hl2 [Hwf2 [Ho2 Hs2]]]]]]]]].
     exists b', (seg1 ++ seg2), (RuleScan.Rl acs (RuleScan.ROut oid false) :: ars2).
     cbn [apply_rules]. rewrite Hrun1.
     split; [exact Hrun2|]. split; [now rewrite Hr2, Hr1, app_assoc|]. split; [now apply (ext_trans b b1 b')|].
@@ -822,9 +891,14 @@ Lemma refinement_core sd ups rt x bm :
      match_loop sd (b_ipsets b) (args_of x) bm (b_rules b) 0 false false
      = upstream_to_id sd ups (first_target ups (rt_rules rt) (rt_fallback rt) x)).
 Proof.
-  intros Hw Hrt. unfold routing_ok in Hrt. apply andb_true_iff in Hrt. destruct Hrt as [Hrules Hfb].
+  intros Hw Hrt. unfold routing_ok in Hrt. apply andb_true_iff in Hrt. destruct Hrt as [Hrt Hcount].
+  apply andb_true_iff in Hrt. destruct Hrt as [Hrules Hfb].
   assert (Hrules' : Forall (fun r => rule_ok (is_resp_of sd) ups r = true) (rt_rules rt)) by (apply Forall_forall; now rewrite forallb_forall in Hrules).
-  destruct (apply_rules_emit sd ups x bm Hw (rt_rules rt) empty_builder Hrules')
+  assert (Hcap : N.of_nat (List.length (b_ipsets empty_builder) + ipc_rules sd (rt_rules rt)) <= 65536).
+  { cbn [empty_builder b_ipsets List.length]. destruct sd; cbn [is_resp_of negb orb] in Hcount.
+    - rewrite ipc_request_zero. cbn. lia.
+    - rewrite ipc_response_eq. lia. }
+  destruct (apply_rules_emit sd ups x bm Hw (rt_rules rt) empty_builder Hcap Hrules')
     as [b' [seg [ars [Hrun [Hr [He [Hl [Hwf [Ho Hs]]]]]]]]].
   cbn [empty_builder b_rules app List.length] in Hr, Hl, Hs. change (N.of_nat 0) with 0 in Hl, Hs.
   destruct (target_resolved sd ups (rt_fallback rt) Hw Hfb) as [id [Hid Hle]].
@@ -954,7 +1028,8 @@ Lemma routing_ok_first_target sd ups rt x :
   routing_ok (is_resp_of sd) ups rt = true ->
   target_ok (is_resp_of sd) ups (first_target ups (rt_rules rt) (rt_fallback rt) x) = true.
 Proof.
-  intros Hrt. unfold routing_ok in Hrt. apply andb_true_iff in Hrt. destruct Hrt as [Hrules Hfb].
+  intros Hrt. unfold routing_ok in Hrt. apply andb_true_iff in Hrt. destruct Hrt as [Hrt _].
+  apply andb_true_iff in Hrt. destruct Hrt as [Hrules Hfb].
   apply first_target_ok; [|exact Hfb]. apply Forall_forall. now rewrite forallb_forall in Hrules.
 Qed.
 
